@@ -99,7 +99,7 @@ func (s *Server) listenerLoop(ctx context.Context, listener net.Listener) {
 			continue
 		}
 
-		if err := s.stats.serverLimitExceeded(); err != nil {
+		if err := s.stats.reserveConnection(); err != nil {
 			dlog.Server.Error(err)
 			conn.Close()
 			continue
@@ -114,6 +114,7 @@ func (s *Server) handleConnection(ctx context.Context, conn net.Conn) {
 	sshConn, chans, reqs, err := gossh.NewServerConn(conn, s.sshServerConfig)
 	if err != nil {
 		dlog.Server.Error("Something just happened", err)
+		s.stats.decrementConnections()
 		return
 	}
 
